@@ -1,6 +1,7 @@
 package main
 
 import (
+	"fmt"
 	"reflect"
 	"strings"
 	"syscall"
@@ -43,9 +44,17 @@ func init() {
 		tv := syscall.NsecToTimeval((15 * time.Second).Nanoseconds())
 		syscall.SetsockoptTimeval(fds[1], syscall.SOL_SOCKET, syscall.SO_RCVTIMEO, &tv)
 		buf := make([]byte, 65536)
-		n, err := syscall.Read(fds[1], buf)
+		// a raw read is interrupted by the runtime's own signals (asynchronous preemption) when the machine is busy: EINTR is
+		// not "no message"
+		var n int
+		for {
+			n, err = syscall.Read(fds[1], buf)
+			if err != syscall.EINTR {
+				break
+			}
+		}
 		if err != nil || n <= 0 {
-			out["read_err"] = "no message within 15 s"
+			out["read_err"] = fmt.Sprintf("no message within 15 s (%v)", err)
 			return out
 		}
 		msg := buf[:n]
